@@ -95,6 +95,62 @@ fn error_line(e: &Error) -> String {
     s
 }
 
+// the position carried by the variant itself (Error::pos() must report exactly this one)
+fn error_variant_pos(e: &Error) -> Option<roxmltree::TextPos> {
+    match e {
+        Error::InvalidXmlPrefixUri(p)
+        | Error::UnexpectedXmlUri(p)
+        | Error::UnexpectedXmlnsUri(p)
+        | Error::InvalidElementNamePrefix(p)
+        | Error::DuplicatedNamespace(_, p)
+        | Error::UnknownNamespace(_, p)
+        | Error::UnexpectedCloseTag(_, _, p)
+        | Error::UnexpectedEntityCloseTag(p)
+        | Error::UnknownEntityReference(_, p)
+        | Error::MalformedEntityReference(p)
+        | Error::EntityReferenceLoop(p)
+        | Error::InvalidAttributeValue(p)
+        | Error::DuplicatedAttribute(_, p)
+        | Error::UnexpectedDeclaration(p)
+        | Error::InvalidName(p)
+        | Error::NonXmlChar(_, p)
+        | Error::InvalidChar(_, _, p)
+        | Error::InvalidChar2(_, _, p)
+        | Error::InvalidString(_, p)
+        | Error::InvalidExternalID(p)
+        | Error::InvalidComment(p)
+        | Error::InvalidCharacterData(p)
+        | Error::UnknownToken(p) => Some(*p),
+        Error::NoRootNode
+        | Error::UnclosedRootNode
+        | Error::DtdDetected
+        | Error::NodesLimitReached
+        | Error::AttributesLimitReached
+        | Error::NamespacesLimitReached
+        | Error::UnexpectedEndOfStream => None,
+    }
+}
+
+// "EV r c": the variant's own position; "ED r c": the position the Display text ends with ("... at r:c")
+fn error_pos_lines(e: &Error) -> (String, String) {
+    let ev = match error_variant_pos(e) {
+        Some(p) => format!("EV {} {}", p.row, p.col),
+        None => "EV - -".to_string(),
+    };
+    let txt = format!("{}", e);
+    let mut ed = "ED - -".to_string();
+    if let Some(i) = txt.rfind(" at ") {
+        let tail = &txt[i + 4..];
+        let mut it = tail.split(':');
+        if let (Some(a), Some(b), None) = (it.next(), it.next(), it.next()) {
+            if let (Ok(r), Ok(c)) = (a.parse::<u32>(), b.parse::<u32>()) {
+                ed = format!("ED {} {}", r, c);
+            }
+        }
+    }
+    (ev, ed)
+}
+
 fn storage_kind(s: &StringStorage) -> char {
     match s {
         StringStorage::Borrowed(_) => 'B',
@@ -533,6 +589,9 @@ fn run_case(idx: &str, flags: &str, dtd: bool, limit: u32, input: &str, o: &mut 
         Err(e) => {
             writeln!(o, "{} R err", idx).unwrap();
             writeln!(o, "{} {}", idx, error_line(&e)).unwrap();
+            let (ev, ed) = error_pos_lines(&e);
+            writeln!(o, "{} {}", idx, ev).unwrap();
+            writeln!(o, "{} {}", idx, ed).unwrap();
             if flags.contains('g') {
                 let _ = format!("{}{:?}", e, e);
                 writeln!(o, "{} G ok 0", idx).unwrap();
